@@ -227,6 +227,84 @@ inline std::vector<Decision> decisions_from_plan(const Plan& plan)
     return ds;
 }
 
+// Writer-side equivalence: the same value tree encoded by a producer that uses random-access setters and
+// by one that uses the cursor idiom (plain cursor setters, `group(c)` + fill_group_header + cursor_range,
+// data through dont_move + skip) must leave the same bytes in the slot, whatever the slot held before,
+// and the cursor must end at the message end.
+inline Result exec_c04_encode(const Plan& plan, FrameSpec& fs)
+{
+    Result res;
+    fs.tp.extend = false;
+    PlanBudget budget(20000);
+    sim::Hasher fp;
+    const Driver& drv = *fs.drv;
+    const SchemaShape& sh = *drv.shape;
+    Frame f = make_frame(fs);
+    const std::set<std::string> known = known_set(plan);
+    auto fail = [&](const std::string& cls0, const std::string& detail) {
+        if(res.violation) return;
+        std::string cls = cls0;
+        if(cls == "end-position" && memberless_message_with_block(sh, f)) cls += ":memberless-message";
+        if(is_known(res, known, "C04:" + cls)) return;
+        res.violation = true;
+        res.signature = "C04:" + cls;
+        res.detail = detail + " [schema " + sh.name + " msg " + std::to_string(fs.msg) + " tree " + std::to_string(fs.tree_seed) + " encode-differential bg " + std::to_string(plan.geti("bg")) + (drv.checked ? " checked" : " unchecked") + "]";
+    };
+    const std::size_t size = f.bytes.size() + 48;
+    const std::vector<u8> bg = slot_background(fs, size, (int)plan.geti("bg"), (u64)plan.geti("bgseed"));
+    std::vector<u8> img[2];
+    Outcome oc[2];
+    Res rs[2];
+    for(int mode = 0; mode < 2; mode++)
+    {
+        u8* p = sim::arena_place(size);
+        std::memcpy(p, bg.data(), size);
+        Req rq;
+        rq.msg = fs.msg;
+        rq.p = p;
+        rq.n = size;
+        rq.target = T_MESSAGE;
+        rq.sub = M_ENCODE;
+        rq.tree = &f.root;
+        rq.arg = (u64)mode;
+        oc[mode] = call_driver(drv, rq, rs[mode]);
+        img[mode].assign(p, p + size);
+        fp.add((u64)oc[mode].kind);
+        fp.add(rs[mode].bits);
+        fp.add(sim::fnv1a(img[mode].data(), size));
+    }
+    sim::stats().count("c04.encode_differentials");
+    sim::stats().tuple(std::string("encode|") + sh.name + "|m" + std::to_string(fs.msg) + "|bg" + std::to_string(plan.geti("bg")));
+    if(oc[0].kind != Out::DONE)
+    {
+        // the random-access producer itself did not finish: nothing to compare the cursor idiom with
+        // (a spurious assertion on an in-bounds producer is C10's subject, where the same encoder runs)
+        sim::stats().count(std::string("c04.encode_random_access_") + sim::out_name(oc[0].kind));
+        res.fingerprint = fp.h;
+        return res;
+    }
+    if(oc[1].kind != Out::DONE)
+    {
+        fail(oc[1].kind == Out::HANDLER ? "legal-call-asserted" : std::string("walk-") + sim::out_name(oc[1].kind), "the cursor-based producer ended with " + std::string(sim::out_name(oc[1].kind)) + (oc[1].kind == Out::HANDLER ? std::string(" `") + oc[1].expr + "` in " + oc[1].func : " at offset " + std::to_string(oc[1].off)) + " after " + std::to_string(rs[1].bits) + " writes; the random-access producer completed");
+        return res;
+    }
+    if(img[0] != img[1])
+    {
+        std::size_t i = 0;
+        while(i < size && img[0][i] == img[1][i]) i++;
+        fail("encode-differs", "the slot written through cursor setters differs from the one written through random-access setters, first at offset " + std::to_string(i) + " (cursor " + std::to_string(img[1][i]) + ", random access " + std::to_string(img[0][i]) + ", before " + std::to_string(bg[i]) + ")");
+        return res;
+    }
+    if(rs[1].cursor_off != (long long)rs[0].size)
+    {
+        fail("end-position", "after the cursor-based producer wrote every member the cursor is at " + std::to_string(rs[1].cursor_off) + ", size_bytes(m) is " + std::to_string(rs[0].size));
+        return res;
+    }
+    if(rs[0].size == f.bytes.size()) sim::stats().count("c04.encode_size_equals_model");
+    res.fingerprint = fp.h;
+    return res;
+}
+
 inline Result exec_c04(const Plan& plan)
 {
     Result res;
@@ -236,6 +314,7 @@ inline Result exec_c04(const Plan& plan)
         res.signature = "HARNESS:bad-frame-spec";
         return res;
     }
+    if(plan.get("mode") == "encode-differential") return exec_c04_encode(plan, fs);
     PlanBudget budget(20000);
     sim::Hasher fp;
     const Driver& drv = *fs.drv;
@@ -367,7 +446,7 @@ inline Result exec_c04(const Plan& plan)
             else
             {
                 ra.target = exp.mkind;
-                ra.sub = exp.mkind == T_FIELD ? GET : exp.mkind == T_GROUP ? G_ADDR : D_ADDR;
+                ra.sub = exp.mkind == T_FIELD ? GET : exp.mkind == T_GROUP ? G_INFO : D_INFO;
             }
             Outcome o2 = call_driver(drv, ra, rr);
             if(o2.kind != Out::DONE)
@@ -380,6 +459,17 @@ inline Result exec_c04(const Plan& plan)
             {
                 fail("value", "`" + step_name(exp) + "` through the cursor gave " + (got.has_bits ? "value 0x" + std::to_string(got.bits) : "a view at offset " + std::to_string(got.addr_off)) + ", random access " + (rr.has_bits ? "value 0x" + std::to_string(rr.bits) : "a view at offset " + std::to_string(rr.addr_off)));
                 return res;
+            }
+            // "a view of the same bytes": a group / data view obtained through the cursor must decode the
+            // same count / length and expose the same payload as the one random access returns
+            if(got.has_view && rr.has_view)
+            {
+                sim::stats().count("c04.view_contents_compared");
+                if(got.vsize != rr.vsize || got.vhash != rr.vhash)
+                {
+                    fail("view", "`" + step_name(exp) + "` through the cursor is a view of " + std::to_string(got.vsize) + (exp.mkind == T_GROUP ? " entries" : " bytes") + ", the random-access one of " + std::to_string(rr.vsize) + (got.vsize == rr.vsize ? " (same length, different payload)" : ""));
+                    return res;
+                }
             }
         }
     }
@@ -421,6 +511,14 @@ inline Plan gen_c04(u64 seed, const std::string& tier)
     p.set("schema", sh.name);
     p.seti("msg", (long long)wl.below(sh.messages.size()));
     p.seti("tree", (long long)(wl.next() >> 20));
+    if(root.fork("mode").chance(1, 6))
+    {
+        sim::Rng ml = root.fork("encode");
+        p.set("mode", "encode-differential");
+        p.seti("bg", (long long)ml.below(4));
+        p.seti("bgseed", (long long)(ml.next() >> 20));
+        return p;
+    }
     if(wl.chance(1, 3)) p.seti("extend", 1);
     if(wl.chance(1, 3)) p.seti("const_cursor", 1);
     if(wl.chance(1, 4)) p.seti("by_tag", 1);
